@@ -99,4 +99,25 @@ loop 0 invariant indicator: index <= NEL(arg) && RNEL(result) == NEL(arg) && IMP
 loop 0 assigns: index, result
 loop 0 decreases: NEL(arg) - index
 """)
+# UNDEF: a fresh set of the same size, 1 where the argument is UNDEFINED, undefined where it is defined
+out.append("""@function set_ctor_size extern
+qual: Opm::UDQSet::UDQSet
+sig: const&, unsigned long)
+assigns: *self
+ensures all_undefined: self->values.size == size && IMPLIES(ghost_e < size, !self->values.data[ghost_e].m_value.has)
+
+@function set_name extern
+qual: ~Opm::UDQSet::name(\\[abi:cxx11\\])?$
+sig: () const
+ensures pure: !\\thrown
+
+@function f_UNDEF
+qual: Opm::UDQUnaryElementalFunction::UNDEF
+requires: NEL(arg) <= 1000000000
+ensures same_size: RNEL(\\result) == NEL(arg)
+ensures complement_of_definedness: IMPLIES(ghost_e < NEL(arg), RDEF(\\result, ghost_e) == !ADEF(ghost_e) && IMPLIES(!ADEF(ghost_e), RVAL(\\result, ghost_e) == 1))
+loop 0 invariant complement: index <= NEL(arg) && RNEL(result) == NEL(arg) && IMPLIES(ghost_e < index, RDEF(result, ghost_e) == !ADEF(ghost_e) && IMPLIES(!ADEF(ghost_e), RVAL(result, ghost_e) == 1)) && IMPLIES(ghost_e >= index && ghost_e < NEL(arg), !RDEF(result, ghost_e))
+loop 0 assigns: index, result
+loop 0 decreases: NEL(arg) - index
+""")
 sys.stdout.write('@@@ udqfunc\n' + '\n'.join(out) + '\n')
